@@ -140,7 +140,10 @@ ABSL_ATTRIBUTE_NOINLINE void GarbageCollector<R>::keep_reclaim() noexcept {
   ::std::vector<ReclaimTask> tasks;
   size_t backoff_us = 1000;
   tasks.reserve(batch);
-  while (running) {
+  // After the stop marker was consumed keep polling until every task consumed
+  // before it is reclaimed. Otherwise tasks still waiting for a critical
+  // region to close would be destroyed without ever being invoked.
+  while (running || index < tasks.size()) {
     if (index == tasks.size()) {
       tasks.clear();
       running = consume_reclaim_task(batch, tasks);
